@@ -183,6 +183,7 @@ def run_check(prop, tier, seed, replay=None):
             path = common.write_replay(prop, {
                 "kind": "tie-broken",
                 "no_longer_checks": unexplained[:20],
+                "disagreements": disagreements[:5],
                 "note": "the property is no longer shown to hold; no failing input was found by the search",
                 "search": ctx.hist,
             })
